@@ -182,7 +182,8 @@ def explore_program(program, bound, reduction=True, max_executions=None):
         mode, arg = req
         r = state["runner"]
         if mode == "serial":
-            return {"obs": r.run_serial(arg)}, False
+            obs = r.run_serial(arg)
+            return {"obs": obs}, (obs[3] != 0 or obs[4] != 0 or obs[2] is not None)
         out = r.run_schedule(arg)
         return out, out["dirty"]
 
